@@ -204,6 +204,273 @@ Proof.
         -- apply endst_cons. rewrite lo_tail in He. exact He.
 Qed.
 
+Lemma run_cell_end (cl:cell) i vals q q2 : ic = i ->
+  0 <= i -> suf src i = q -> q <> [] -> render_cell cl = q ++ q2 -> fits' 0 vals (snd cl) ->
+  exists s, reaches (S0' i false false 0 vals) s /\ endst vals (coff + cs) (snd cl) s.
+Proof.
+  intros Eic Hi H Hne Hq Hfit. unfold render_cell in Hq. destruct (fst cl || needs_quote (snd cl)) eqn:E.
+  - (* quoted *)
+    destruct q as [|x q']; [contradiction|]. cbn [app] in Hq. inversion Hq as [[Hx Hq']]. subst x.
+    assert (Hcl : classify src i ESC false false ic e = Ok (false, false, false, true, false, e)).
+    { rewrite Eic. apply cl_open. }
+    pose proof (step_inner src offs maxrow i e c r vfc false false 0 cs ic coff cvc inds vals ESC q' false true false Hi H Hcl) as Hst.
+    cbn [andb] in Hst. specialize (Hst ltac:(discriminate)).
+    destruct (suf_cons src i ESC _ Hi H) as (_ & _ & Hs & _).
+    destruct q' as [|z q3].
+    + pose proof (suf_last i ESC Hi H) as Hl. rewrite Hl in Hst.
+      eexists. split; [apply reaches_step; exact Hst|]. apply endst_nil.
+    + destruct (run_qbody_end (snd cl) (i + 1) 0 vals (z :: q3) q2) as (s & R & He); try lia; try assumption; try discriminate.
+      exists s. split.
+      * eapply reaches_cons; [exact Hst| |exact R]. eapply (noexit_S0 src maxrow); [|exact Hs]. lia.
+      * rewrite Z.add_0_r in He. exact He.
+  - (* plain *)
+    apply orb_false_elim in E. destruct E as (_ & E). unfold needs_quote in E.
+    apply orb_false_elim in E. destruct E as (E & _).
+    pose proof (plain_of_noquote _ E) as Hall. rewrite Hq in Hall, Hfit. rewrite forallb_app in Hall.
+    apply andb_prop in Hall. destruct Hall as (Hall & _).
+    destruct (run_plain_end q i 0 vals) as (s & R & He); try lia; try assumption.
+    { eapply fits_app; exact Hfit. }
+    exists s. split; [exact R|]. rewrite Z.add_0_r in He. rewrite Hq. apply endst_app. exact He.
+Qed.
+
 End CellEnd.
+
+Hypothesis Hoffs : len offs = ncols + 1.
+Hypothesis Hncols : 0 < ncols.
+Hypothesis Hmaxrow : 0 < maxrow.
+
+(* ---- records ------------------------------------------------------------------------------ *)
+Section Data2.
+Variables (V : Z) (rows : list (list cell)).
+Let nrows := len rows.
+Hypothesis Hoffs0 : nthZ offs 0 = 0.
+Hypothesis Hbudget : forall c, 0 <= c < ncols -> nthZ offs c + len (CB rows c) < nthZ offs (c + 1).
+Hypothesis HV : nthZ offs ncols <= V.
+
+Notation Good := (Good ncols w V offs rows).
+Notation cstate := (cstate offs).
+
+(* cstate with the "index buffer full" flag that the last line break of a call may raise *)
+Definition cstate_f (fl:bool) (i e c r:Z) (inds:arr2) (vals:list Z) : st :=
+  mkSt i e c r (-1) false false 0 (I2 inds c r) i fl false (nthZ offs c) (nthZ offs (c + 1) - nthZ offs c) inds vals.
+
+Lemma pre_mono2 (l:list (list Z)) : forall k k', (k <= k')%nat -> pre l k <= pre l k'.
+Proof.
+  induction l as [|t l IH]; intros k k' H.
+  - destruct k, k'; unfold pre; cbn; lia.
+  - destruct k as [|k]; destruct k' as [|k']; try lia.
+    + rewrite pre_0. apply pre_nonneg.
+    + rewrite !pre_cons. specialize (IH k k' ltac:(lia)). lia.
+Qed.
+
+Lemma P_mono c k k' : 0 <= k <= k' -> P rows c k <= P rows c k'.
+Proof. intros H. unfold P. apply pre_mono2. lia. Qed.
+
+Lemma Good_weaken f g inds vals : Good f inds vals -> (forall c, 0 <= c < ncols -> 0 <= g c <= f c) -> Good g inds vals.
+Proof.
+  intros (Hs & Hv & H) Hg. split; [exact Hs|]. split; [exact Hv|]. intros c Hc.
+  destruct (H c Hc) as (Hf & Hi & Hb). specialize (Hg c Hc). split; [lia|]. split.
+  - intros k Hk. apply Hi. lia.
+  - intros j Hj. apply Hb. pose proof (P_mono c (g c) (f c) ltac:(lia)). lia.
+Qed.
+
+(* bytes of a not yet committed cell do not disturb what is committed *)
+Lemma Good_partial f inds vals c r tp tq : Good f inds vals -> 0 <= c < ncols -> f c = r -> 0 <= r < nrows ->
+  cell_text rows r c = tp ++ tq -> Good f inds (wrs vals (nthZ offs c + P rows c r) tp).
+Proof.
+  intros HG Hc Hf Hr Ht. pose proof (Good_fits ncols w V offs rows Hoffs0 Hbudget HV f inds vals c r HG Hc Hr) as (F1 & F2 & F3).
+  rewrite Ht, len_app in F2, F3. pose proof (len_nonneg tq) as Hq. pose proof (len_nonneg tp) as Hp.
+  destruct HG as (Hs & Hv & H). pose proof (offs_nonneg ncols offs rows Hoffs0 Hbudget c ltac:(lia)) as Hon.
+  pose proof (P_nonneg rows c r) as Hpn.
+  split; [exact Hs|]. split; [rewrite len_wrs; exact Hv|].
+  intros c' Hc'. destruct (H c' Hc') as (Hf' & Hi' & Hb'). split; [exact Hf'|]. split; [exact Hi'|].
+  intros j Hj. rewrite nth_wrs_out; [apply Hb'; exact Hj| | |].
+  - lia.
+  - pose proof (offs_nonneg ncols offs rows Hoffs0 Hbudget c' ltac:(lia)). lia.
+  - pose proof (P_le rows c' (f c') Hf') as Hle. pose proof (Hbudget c' Hc') as Hbu.
+    destruct (Z.eq_dec c' c) as [->|Hne].
+    + left. rewrite Hf in Hj. lia.
+    + destruct (Z_lt_ge_dec c' c) as [Hlt|Hge].
+      * left. pose proof (offs_mono ncols offs rows Hbudget (c' + 1) c ltac:(lia) ltac:(lia) ltac:(lia)). lia.
+      * right. pose proof (offs_mono ncols offs rows Hbudget (c + 1) c' ltac:(lia) ltac:(lia) ltac:(lia)). lia.
+Qed.
+
+Lemma lt_succ_fun c r x : (if x =? c then r + 1 else if x <? c then r + 1 else r) = if x <? c + 1 then r + 1 else r.
+Proof.
+  destruct (x =? c) eqn:E1.
+  - apply Z.eqb_eq in E1. subst x. destruct (c <? c + 1) eqn:E2; [reflexivity|apply Z.ltb_ge in E2; lia].
+  - apply Z.eqb_neq in E1. destruct (x <? c) eqn:E2; destruct (x <? c + 1) eqn:E3; try reflexivity.
+    + apply Z.ltb_lt in E2. apply Z.ltb_ge in E3. lia.
+    + apply Z.ltb_ge in E2. apply Z.ltb_lt in E3. lia.
+Qed.
+
+(* one complete record of the table (row r), from column c on; the line break may fill the index buffer *)
+Lemma run_cells_gen r : 0 <= r < nrows -> r + 1 <= maxrow -> forall cells c i e inds vals rest,
+  cells <> [] -> 0 <= c -> c + len cells = ncols -> 0 <= i ->
+  suf src i = render_row cells ++ rest -> nows rest ->
+  (forall j, 0 <= j < len cells -> snd (nthd (false, []) cells j) = cell_text rows r (c + j)) ->
+  Good (fun x => if x <? c then r + 1 else r) inds vals ->
+  exists n s_pre inds' vals',
+    runn n (cstate i e c r inds vals) s_pre /\
+    step s_pre = Ok (cstate_f (r + 1 =? maxrow) (i + len (render_row cells)) (i + len (render_row cells) - 1) 0 (r + 1) inds' vals') /\
+    Good (fun _ => r + 1) inds' vals'.
+Proof.
+  intros Hr Hrm. assert (Er : (0 <=? r) = true) by (apply Z.leb_le; lia).
+  assert (Er2 : (r <? 0) = false) by (apply Z.ltb_ge; lia).
+  induction cells as [|cl cells IH]; intros c i e inds vals rest Hne Hc Hlen Hi H Hn Htxt HG; [contradiction|].
+  assert (Htc : snd cl = cell_text rows r c).
+  { specialize (Htxt 0). rewrite Z.add_0_r in Htxt. apply Htxt. rewrite len_cons. pose proof (len_nonneg cells). lia. }
+  assert (Hcn : 0 <= c < ncols) by (rewrite len_cons in Hlen; pose proof (len_nonneg cells); lia).
+  assert (Hfc : (if c <? c then r + 1 else r) = r) by (rewrite Z.ltb_irrefl; reflexivity).
+  pose proof (Good_fits ncols w V offs rows Hoffs0 Hbudget HV _ inds vals c r HG Hcn Hr) as (F1 & F2 & F3).
+  assert (Hcs : I2 inds c r = P rows c r).
+  { destruct HG as (_ & _ & HGc). destruct (HGc c Hcn) as (_ & Hk & _). apply Hk. rewrite Hfc. lia. }
+  assert (Hsh : shape ncols w inds) by (destruct HG as (Hsh & _); exact Hsh).
+  pose proof (Good_cell ncols w V offs rows Hoffs0 Hbudget HV _ inds vals c r HG Hcn Hfc Hr ltac:(unfold w; lia)) as HG1.
+  assert (Hfit : fits r (I2 inds c r) (nthZ offs c) (nthZ offs (c + 1) - nthZ offs c) 0 vals (snd cl)).
+  { unfold fits. intros _. rewrite Hcs, Htc. lia. }
+  pose proof (len_nonneg (render_cell cl)) as Hl.
+  destruct cells as [|cl2 cells].
+  - (* last cell of the record *)
+    cbn [render_row] in *. rewrite <- app_assoc in H. cbn [app] in H.
+    destruct (run_cell src offs maxrow e c r (-1) (I2 inds c r) (nthZ offs c) (nthZ offs (c + 1) - nthZ offs c) inds cl i vals NL rest Hi H
+                ltac:(auto) Hfit) as (n & R).
+    rewrite Er in R.
+    pose proof (suf_app_len src i _ _ Hi H) as Hs.
+    replace (len [cl]) with 1 in Hlen by reflexivity.
+    exists n. eexists. exists (put2 inds c (r + 1) (P rows c r + len (cell_text rows r c))),
+                              (wrs vals (nthZ offs c + P rows c r) (cell_text rows r c)).
+    split; [exact R|]. split.
+    + unfold S0. rewrite (step_nl src offs maxrow ncols Hoffs (i + len (render_cell cl)) e c r (-1) (len (snd cl)) (I2 inds c r) i
+                           (nthZ offs c) (nthZ offs (c + 1) - nthZ offs c) inds _ rest); try assumption; try lia.
+      * rewrite Er. cbv zeta. unfold cstate_f.
+        replace (len (render_cell cl ++ [NL])) with (len (render_cell cl) + 1) by (rewrite len_app; reflexivity).
+        rewrite Hcs, Htc. replace (0 + 1) with 1 by lia.
+        destruct (r + 1 =? maxrow); f_equal; f_equal; lia.
+    + eapply Good_ext; [|exact HG1]. intros x Hx. cbv beta.
+      destruct (x =? c) eqn:E1; [reflexivity|]. apply Z.eqb_neq in E1.
+      destruct (x <? c) eqn:E2; [reflexivity|]. apply Z.ltb_ge in E2. lia.
+  - (* a cell followed by a separator *)
+    remember (cl2 :: cells) as more eqn:Em.
+    assert (Hmore : more <> []) by (subst; discriminate).
+    assert (Erow : render_row (cl :: more) = render_cell cl ++ SEP :: render_row more) by (subst more; reflexivity).
+    rewrite Erow in *. rewrite <- app_assoc in H. cbn [app] in H.
+    destruct (run_cell src offs maxrow e c r (-1) (I2 inds c r) (nthZ offs c) (nthZ offs (c + 1) - nthZ offs c) inds cl i vals SEP
+                (render_row more ++ rest) Hi H ltac:(auto) Hfit) as (n & R).
+    rewrite Er in R.
+    pose proof (suf_app_len src i _ _ Hi H) as Hs.
+    assert (Hlm : len (cl :: more) = len more + 1) by apply len_cons.
+    assert (Hlm0 : 1 <= len more) by (rewrite Em, len_cons; pose proof (len_nonneg cells); lia).
+    rewrite Hlm in Hlen.
+    pose proof (step_sep src offs maxrow ncols Hoffs (i + len (render_cell cl)) e c r (-1) (len (snd cl)) (I2 inds c r) i
+                  (nthZ offs c) (nthZ offs (c + 1) - nthZ offs c) inds (wrs vals (nthZ offs c + I2 inds c r) (snd cl))
+                  (render_row more ++ rest) ltac:(lia) Hs (nows_render_row more rest Hmore) Hsh Hc
+                  ltac:(lia) ltac:(lia) ltac:(unfold w; lia)) as Hst.
+    rewrite Er, Er2 in Hst. cbv zeta in Hst. rewrite Hcs, Htc in Hst.
+    set (inds1 := put2 inds c (r + 1) (P rows c r + len (cell_text rows r c))) in *.
+    set (vals1 := wrs vals (nthZ offs c + P rows c r) (cell_text rows r c)) in *.
+    destruct (suf_cons src (i + len (render_cell cl)) SEP _ ltac:(lia) Hs) as (_ & _ & Hs2 & _).
+    assert (HG2 : Good (fun x => if x <? c + 1 then r + 1 else r) inds1 vals1).
+    { eapply Good_ext; [|exact HG1]. intros x Hx. cbv beta. apply lt_succ_fun. }
+    destruct (IH (c + 1) (i + len (render_cell cl) + 1) e inds1 vals1 rest Hmore ltac:(lia) ltac:(lia) ltac:(lia) Hs2 Hn)
+      as (n2 & s_pre & inds' & vals' & R2 & Hfin & HG3).
+    { intros j Hj. specialize (Htxt (j + 1)). rewrite Hlm in Htxt. specialize (Htxt ltac:(lia)).
+      rewrite nthd_cons_succ in Htxt by lia. rewrite Htxt. f_equal. lia. }
+    { exact HG2. }
+    exists (n + (1 + n2))%nat, s_pre, inds', vals'. split; [|split].
+    + eapply runn_trans; [exact R|]. eapply runn_trans; [|exact R2].
+      apply runn_one.
+      * unfold S0. rewrite Hcs, Htc. fold vals1. rewrite Hst. unfold CsvRows.cstate.
+        replace (c + 1 + 1) with (c + 2) by lia. reflexivity.
+      * unfold noexit, CsvRows.cstate. cbn [s_index s_ifull s_vfull].
+        destruct (render_row more ++ rest) eqn:E2; [destruct (render_row_nonnil more); destruct (render_row more); [reflexivity|discriminate]|].
+        destruct (suf_cons src (i + len (render_cell cl) + 1) _ _ ltac:(lia) Hs2) as (Hlt & _). repeat split; lia.
+    + rewrite Hfin. f_equal. rewrite len_app, len_cons. f_equal; lia.
+    + exact HG3.
+Qed.
+
+Lemma cstate_f_false i e c r inds vals : cstate_f false i e c r inds vals = cstate i e c r inds vals.
+Proof. reflexivity. Qed.
+
+Lemma render_file_cons r rws : render_file (r :: rws) = render_row r ++ render_file rws.
+Proof. reflexivity. Qed.
+
+Lemma render_file_app a b : render_file (a ++ b) = render_file a ++ render_file b.
+Proof. unfold render_file. rewrite map_app, concat_app. reflexivity. Qed.
+
+Lemma rect_nonnil rws : Forall (fun rw : list cell => len rw = ncols) rws -> Forall (fun rw => rw <> []) rws.
+Proof. intros H. eapply Forall_impl; [|exact H]. intros a Ha ->. unfold len in Ha; cbn in Ha; lia. Qed.
+
+Lemma nows_file_app rws rest : Forall (fun rw : list cell => len rw = ncols) rws -> nows rest -> nows (render_file rws ++ rest).
+Proof.
+  intros H Hn. destruct rws as [|r rws]; [exact Hn|]. rewrite render_file_cons, <- app_assoc.
+  apply nows_render_row. pose proof (Forall_inv (rect_nonnil _ H)) as Hr. exact Hr.
+Qed.
+
+(* complete records rws = rows[r .. r + |rws|) followed by anything that does not start with a blank *)
+Lemma run_rows_gen : forall rws r i e inds vals rest,
+  rws <> [] -> 0 <= r -> r + len rws <= nrows -> r + len rws <= maxrow -> 0 <= i ->
+  suf src i = render_file rws ++ rest -> nows rest ->
+  (forall k, 0 <= k < len rws -> nthd [] rws k = nthd [] rows (r + k)) ->
+  Forall (fun rw => len rw = ncols) rws ->
+  Good (fun _ => r) inds vals ->
+  exists n s_pre inds' vals',
+    runn n (cstate i e 0 r inds vals) s_pre /\
+    step s_pre = Ok (cstate_f (r + len rws =? maxrow) (i + len (render_file rws)) (i + len (render_file rws) - 1) 0
+                              (r + len rws) inds' vals') /\
+    Good (fun _ => r + len rws) inds' vals'.
+Proof.
+  induction rws as [|row rws IH]; intros r i e inds vals rest Hne Hr Hlen Hmax Hi H Hn Hnth Hrect HG; [contradiction|].
+  pose proof (Forall_inv Hrect) as Hrow. pose proof (Forall_inv_tail Hrect) as Hrect'. cbv beta in Hrow.
+  pose proof (len_nonneg rws) as Hlr. rewrite len_cons in Hlen, Hmax.
+  assert (Hrr : 0 <= r < nrows) by lia.
+  assert (Hrow_ne : row <> []) by (intros ->; unfold len in Hrow; cbn in Hrow; lia).
+  assert (Htxt : forall j, 0 <= j < len row -> snd (nthd (false, []) row j) = cell_text rows r (0 + j)).
+  { intros j Hj. rewrite cell_text_eq. rewrite Z.add_0_l.
+    specialize (Hnth 0). rewrite Z.add_0_r in Hnth. unfold nthd in *. cbn [Z.to_nat nth] in Hnth.
+    rewrite <- Hnth by (rewrite len_cons; lia). reflexivity. }
+  assert (HG0 : Good (fun x => if x <? 0 then r + 1 else r) inds vals).
+  { eapply Good_ext; [|exact HG]. intros x Hx. cbv beta. destruct (x <? 0) eqn:E; [apply Z.ltb_lt in E; lia|reflexivity]. }
+  rewrite render_file_cons, <- app_assoc in H.
+  assert (Hnw : nows (render_file rws ++ rest)) by (apply nows_file_app; assumption).
+  destruct (run_cells_gen r Hrr ltac:(lia) row 0 i e inds vals (render_file rws ++ rest) Hrow_ne ltac:(lia) ltac:(lia) Hi H Hnw Htxt HG0)
+    as (n & s_pre & inds1 & vals1 & R & Hfin & HG').
+  pose proof (len_nonneg (render_row row)) as Hl.
+  destruct rws as [|row2 rws].
+  - (* last of the complete records *)
+    exists n, s_pre, inds1, vals1. split; [exact R|]. split.
+    + rewrite Hfin. replace (len [row]) with 1 by reflexivity.
+      replace (render_file [row]) with (render_row row) by (cbn [render_file map concat]; rewrite app_nil_r; reflexivity).
+      reflexivity.
+    + replace (len [row]) with 1 by reflexivity. exact HG'.
+  - remember (row2 :: rws) as more eqn:Em.
+    assert (Hmore : more <> []) by (subst; discriminate).
+    assert (Hlm0 : 1 <= len more) by (rewrite Em, len_cons; pose proof (len_nonneg rws); lia).
+    pose proof (suf_app_len src i _ _ Hi H) as Hs.
+    assert (Efl : (r + 1 =? maxrow) = false) by (apply Z.eqb_neq; lia).
+    rewrite Efl, cstate_f_false in Hfin.
+    destruct (IH (r + 1) (i + len (render_row row)) (i + len (render_row row) - 1) inds1 vals1 rest Hmore
+                 ltac:(lia) ltac:(lia) ltac:(lia) ltac:(lia) Hs Hn)
+      as (n2 & s_pre2 & inds' & vals' & R2 & Hfin2 & HG2).
+    { intros k Hk. specialize (Hnth (k + 1)). rewrite len_cons in Hnth. specialize (Hnth ltac:(lia)).
+      rewrite nthd_cons_succ in Hnth by lia. rewrite Hnth. f_equal. lia. }
+    { exact Hrect'. }
+    { exact HG'. }
+    exists (n + (1 + n2))%nat, s_pre2, inds', vals'. split; [|split].
+    + eapply runn_trans; [exact R|]. eapply runn_trans; [|exact R2].
+      apply runn_one; [exact Hfin|].
+      unfold noexit, CsvRows.cstate. cbn [s_index s_ifull s_vfull].
+      destruct (render_file more ++ rest) as [|x t] eqn:E2.
+      { exfalso. subst more. rewrite render_file_cons, <- app_assoc in E2.
+        destruct (render_row_nonnil row2). destruct (render_row row2); [reflexivity|discriminate]. }
+      destruct (suf_cons src (i + len (render_row row)) x t ltac:(lia) Hs) as (Hlt & _). repeat split; lia.
+    + rewrite Hfin2. rewrite render_file_cons, len_app, len_cons.
+      replace (r + 1 + len more) with (r + (len more + 1)) by lia.
+      replace (i + len (render_row row) + len (render_file more)) with (i + (len (render_row row) + len (render_file more))) by lia.
+      reflexivity.
+    + rewrite len_cons. replace (r + (len more + 1)) with (r + 1 + len more) by lia. exact HG2.
+Qed.
+
+End Data2.
 
 End Pre.
